@@ -468,6 +468,7 @@ def scope_unit(plan):
         b = re.sub(r"std::mem::replace\(\s*&mut\s+state_brrw\.symbol_table\s*,", "replace_symbols(&mut state_brrw.symbol_table,", b)
         b = re.sub(r"std::mem::replace\(\s*&mut\s+state_brrw\.plan\s*,", "replace_plan(&mut state_brrw.plan,", b)
         b = re.sub(r"state_brrw\.environment\.take\(\)", "take_environment(&mut state_brrw.environment)", b)
+        b = re.sub(r"std::mem::replace\(\s*&mut\s+state_brrw\.environment\s*,\s*None\s*\)", "take_environment(&mut state_brrw.environment)", b)
         b = b.replace("Ref::new(", "ref_new(").replace("Self {", "FunctionScope {")
         if re.search(r"\b(mem::replace|borrow_mut|Ref::new)\b", b):
             raise AnchorLost("FunctionScope::enter: statements outside the transcription rules")
